@@ -54,7 +54,8 @@ def run(prop, extra_cov=None, prior=0):
     with open(os.path.join(tlc.SPEC_DIR, cfgname), "w") as f:
         f.write("SPECIFICATION Spec\nCONSTANTS\n  MaxOps = %d\n  OpKinds = %s\n  BaseIds = {1, 2, 3}\n  EmitOn = FALSE\n"
                 "INVARIANT InvRefOK\nINVARIANT InvUnique\nINVARIANT InvPipeValves\nPROPERTY RelabelKeepsIds\nCHECK_DEADLOCK FALSE\n"
-                % (2 if tr == "thorough" else 1, ALL_KINDS if tr == "thorough" else kinds))
+                % (2 if tr == "thorough" else 1,
+                   ('{"reindex", "drop", "fuse", "select", "create"}' if prop == "C17" else '{"create"}') if tr == "thorough" else kinds))
     try:
         mc = tlc.run("MC_Edit", cfg=cfgname, workers=core.nworkers(), timeout=3000, check=True)
     finally:
